@@ -113,8 +113,14 @@ func init() {
 			mk("Scan("+s+")", func(c *apd.Context, d *apd.Decimal) (string, apd.Condition, error) { return "", 0, d.Scan(s) }))
 	}
 	setterDops = append(setterDops,
-		mk("SetInt64(-42)", func(c *apd.Context, d *apd.Decimal) (string, apd.Condition, error) { d.SetInt64(-42); return "", 0, nil }),
-		mk("SetFinite(7,-3)", func(c *apd.Context, d *apd.Decimal) (string, apd.Condition, error) { d.SetFinite(7, -3); return "", 0, nil }),
+		mk("SetInt64(-42)", func(c *apd.Context, d *apd.Decimal) (string, apd.Condition, error) {
+			d.SetInt64(-42)
+			return "", 0, nil
+		}),
+		mk("SetFinite(7,-3)", func(c *apd.Context, d *apd.Decimal) (string, apd.Condition, error) {
+			d.SetFinite(7, -3)
+			return "", 0, nil
+		}),
 		mk("SetFloat64(0.1)", func(c *apd.Context, d *apd.Decimal) (string, apd.Condition, error) {
 			_, err := d.SetFloat64(0.1)
 			return "", 0, err
@@ -137,9 +143,15 @@ func init() {
 		mk("Compose(finite)", func(c *apd.Context, d *apd.Decimal) (string, apd.Condition, error) {
 			return "", 0, d.Compose(0, true, []byte{0x01, 0x02}, -2)
 		}),
-		mk("Compose(inf)", func(c *apd.Context, d *apd.Decimal) (string, apd.Condition, error) { return "", 0, d.Compose(1, true, nil, 0) }),
-		mk("Compose(nan)", func(c *apd.Context, d *apd.Decimal) (string, apd.Condition, error) { return "", 0, d.Compose(2, false, nil, 0) }),
-		mk("Compose(bad)", func(c *apd.Context, d *apd.Decimal) (string, apd.Condition, error) { return "", 0, d.Compose(9, false, nil, 0) }),
+		mk("Compose(inf)", func(c *apd.Context, d *apd.Decimal) (string, apd.Condition, error) {
+			return "", 0, d.Compose(1, true, nil, 0)
+		}),
+		mk("Compose(nan)", func(c *apd.Context, d *apd.Decimal) (string, apd.Condition, error) {
+			return "", 0, d.Compose(2, false, nil, 0)
+		}),
+		mk("Compose(bad)", func(c *apd.Context, d *apd.Decimal) (string, apd.Condition, error) {
+			return "", 0, d.Compose(9, false, nil, 0)
+		}),
 	)
 }
 
@@ -411,6 +423,30 @@ func c05Run(e *core.Env) {
 		}
 		hctx := []CtxCase{MkCtx(300, -6143, 6144, apd.RoundHalfEven, 0), MkCtx(150, -6143, 6144, apd.RoundDown, 0)}
 		n := int64(0)
+		// unary: operands with more than 128 fractional digits and an integral part (the split needs a power of
+		// ten beyond the lookup table) through every one-operand operation in place
+		for _, xj := range []DecJ{{Coef: "7" + strings.Repeat("25", 65), Exp: -130}, {Coef: "7" + strings.Repeat("25", 65), Exp: -130, Neg: true}, {Coef: strings.Repeat("9", 140), Exp: -129}, {Coef: "1" + strings.Repeat("0", 199) + "5", Exp: -200}} {
+			for _, o := range allDops {
+				if o.nargs != 1 {
+					continue
+				}
+				n++
+				if !e.Mine(n) {
+					continue
+				}
+				e.State()
+				for _, cc := range hctx {
+					if (o.name == "Ln" || o.name == "Exp" || o.name == "Log10" || o.name == "Cbrt") && cc.C.Precision > 150 {
+						continue
+					}
+					e.TransOnly(2)
+					e.Outcome(o.name+"/d==x/frac>128", false)
+					if msg := c05One(o, xj, nil, cc, "d==x"); msg != "" {
+						fail(o, xj, nil, cc, "d==x", msg)
+					}
+				}
+			}
+		}
 		for _, pr := range pairs {
 			for _, name := range []string{"Add", "Sub", "Mul", "Quo", "QuoInteger", "Rem", "Cmp"} {
 				n++
@@ -518,8 +554,8 @@ func init() {
 		Bounds: func(tier string) string {
 			return fmt.Sprintf("%d operand representations (DENSE + EDGE, inline and heap-backed, NaN/sNaN/clean+dirty infinities, signed zeros) x second operands x %d contexts (incl. precision 0 and trap sets) x %d operations; 14 operand pairs with exponent gaps of 129-200 (1E+150 and 3, a 200-digit operand and 7E+130, ...) or tying digit-count + exponent sums with a 40-45 digit coefficient x 7 arithmetic operations at Precision 300 and 150; BigInt: %d alphabet values x 2 representations x (17 binary x 43 alias tuples + 5 unary)", len(c05Operands(tier)), len(c05Ctxs(tier)), len(allDops), len(c16Alphabet))
 		},
-		Run:    c05Run,
-		Replay: c05Replay,
+		Run:         c05Run,
+		Replay:      c05Replay,
 		Assumptions: []string{"differential oracle: the distinct-object run of the same implementation is the reference; BigInt alias patterns restricted to those math/big supports"},
 	})
 }
